@@ -134,20 +134,42 @@ def r2(ctx):
 
 def _bounds_predicate(fn_node):
     """(lower ops, upper ops) of comparisons against self.rod_zbnds[0|1],
-    normalised to the form `z OP bound`."""
+    normalised to the form `z OP bound`.  A chained comparison `lo < z <= hi`
+    counts as its two links; a local bound once to a bound (`lo =
+    self.rod_zbnds[0]`, `lo, hi = self.rod_zbnds`) stands for it."""
     lo, hi = [], []
     flip = {ast.Lt: ast.Gt, ast.Gt: ast.Lt, ast.LtE: ast.GtE,
             ast.GtE: ast.LtE}
-    for n in ast.walk(fn_node):
-        if not isinstance(n, ast.Compare) or len(n.ops) != 1:
+    alias = {}
+    for a in ast.walk(fn_node):
+        if not (isinstance(a, ast.Assign) and len(a.targets) == 1):
             continue
-        l, op, r = n.left, type(n.ops[0]), n.comparators[0]
-        for bound, lst in (('self.rod_zbnds[0]', lo),
-                           ('self.rod_zbnds[1]', hi)):
-            if src(r) == bound:
-                lst.append((op, n))
-            elif src(l) == bound and op in flip:
-                lst.append((flip[op], n))
+        t = a.targets[0]
+        if isinstance(t, ast.Name) and src(a.value) in (
+                'self.rod_zbnds[0]', 'self.rod_zbnds[1]') and \
+                len(U.assigns_of(fn_node, t.id)) == 1:
+            alias[t.id] = src(a.value)
+        elif isinstance(t, (ast.Tuple, ast.List)) and len(t.elts) == 2 and \
+                src(a.value) == 'self.rod_zbnds' and all(
+                    isinstance(e, ast.Name) and
+                    len(U.assigns_of(fn_node, e.id)) == 1 for e in t.elts):
+            for i, e in enumerate(t.elts):
+                alias[e.id] = 'self.rod_zbnds[%d]' % i
+
+    def text(e):
+        return alias.get(e.id, e.id) if isinstance(e, ast.Name) else src(e)
+    for n in ast.walk(fn_node):
+        if not isinstance(n, ast.Compare):
+            continue
+        vals = [n.left] + list(n.comparators)
+        for l, o, r in zip(vals, n.ops, vals[1:]):
+            op = type(o)
+            for bound, lst in (('self.rod_zbnds[0]', lo),
+                               ('self.rod_zbnds[1]', hi)):
+                if text(r) == bound:
+                    lst.append((op, n))
+                elif text(l) == bound and op in flip:
+                    lst.append((flip[op], n))
     return lo, hi
 
 
